@@ -258,7 +258,7 @@ C05_Violations(r) ==
       unit == IF r.cfg.tabs THEN 1 ELSE r.cfg.tw
       M == r.marks
       ordOfKey(k) == (CHOOSE j \in 1..Len(M) : M[j][2] = k)
-      applies(m) == m[1] \in {"S", "D", "C"} \/ (m[1] = "B" /\ r.cfg.always_wrap)
+      applies(m) == m[1] \in {"S", "D", "C"} \/ (m[1] = "B" /\ r.cfg.always_wrap) \/ (m[1] = "T" /\ m[3] = 0)
       \* an enclosing anonymous routine that stayed on its parent's line (deliberate style): walk up the refs
       inlineAnon[key \in 0..Len(M) + 1] ==
          IF key = 0 \/ ~(\E j \in 1..Len(M) : M[j][2] = key) THEN FALSE
@@ -277,6 +277,19 @@ C05_Violations(r) ==
             IF ro >= np \/ ~first(ro) THEN {}
             ELSE IF indentOf(m[5]) # indentOf(ro) + m[4] * unit THEN {"depth"} ELSE {}
        : j \in 1..Len(M)}
+
+\* C02: the tokens that the generator's grammar knows to be identifiers (ordinals among the plain tokens, 0-based) keep
+\* their exact spelling, also when it is the spelling of a contextual keyword
+C02_IdentsKept(r) ==
+  LET pa == PlainIdx(r.tin)  pb == PlainIdx(r.tout)
+      ta == TokTexts(r.in, r.tin)  tb == TokTexts(r.out, r.tout)
+      \* platform, deprecated, experimental, library: whether such a word is the directive or a name is a heuristic (exempt)
+      Portability == {<<112,108,97,116,102,111,114,109>>, <<100,101,112,114,101,99,97,116,101,100>>,
+                      <<101,120,112,101,114,105,109,101,110,116,97,108>>, <<108,105,98,114,97,114,121>>}
+  IN Len(pa) # Len(pb) \/ \A k \in 1..Len(r.idents) :
+        \/ r.idents[k] + 1 > Len(pa)
+        \/ ta[pa[r.idents[k] + 1]] = tb[pb[r.idents[k] + 1]]
+        \/ FoldSeq(ta[pa[r.idents[k] + 1]]) \in Portability
 
 ---------------------------------------------------------------------------
 (* C07: verbatim regions (code point ranges <<from, to>> of the input, 0-based half-open) occur in the output *)
